@@ -78,6 +78,12 @@ def jNameQ (j : Json) : Except String NameQ := do
   | "survars" => pure (.surOuts false)
   | "surrxns" => pure .surRxns
   | "unused" => pure .unusedPars
+  | "rawvars" => pure .rawVars
+  | "rawpars" => pure .rawPars
+  | "rawderived" => pure .rawDerived
+  | "rawrxns" => pure .rawRxns
+  | "rawreadouts" => pure .rawReadouts
+  | "rawsurs" => pure .rawSurs
   | x => .error s!"bad names query {x}"
 
 def jRows (j : Json) : Except String (List (Rat × List Rat)) := jList (jPair jRat (jList jRat)) j
@@ -169,7 +175,14 @@ def givenOf (j : Json) : Except String (List (String × Gen.Sig)) := do
     | e => do pure [(← jStr n, ← bareSig e a)]
   | _ => pure []
 
+/-- a trailing "meta" mark asks the harness to pass `unit=` / `source=` as well; the model has no units -/
+def dropMeta (j : Json) : Json :=
+  match j with
+  | .arr a => if a.back? == some (.str "meta") then .arr a.pop else j
+  | _ => j
+
 def jHOp (j : Json) : Except String HOp := do
+  let j := dropMeta j
   match ← jArr j with
   | .str "q" :: _ => pure (.ask (← jQuery j))
   | [.str "fork"] => pure .fork
